@@ -292,7 +292,7 @@ impl TreeGen {
     fn gen_file(&mut self, rng: &mut Rng, idx: usize, ctx: &mut Ctx, depth: usize, class: u16) -> (Vec<u8>, Vec<u8>) {
         let mut text: Vec<u8> = Vec::new();
         let mut flat: Vec<u8> = Vec::new();
-        let n = rng.range(0, 6);
+        let n = rng.range(1, 8);
         if ctx.origin.is_none() {
             let o = vec![b"example".to_vec(), b"test".to_vec()];
             let line = b"$ORIGIN example.test.\n".to_vec();
@@ -396,7 +396,7 @@ fn emit(em: &mut Emitter, case: &str) {
 }
 
 fn gen_tree(rng: &mut Rng, em: &mut Emitter) {
-    let n_files = rng.range(1, 6);
+    let n_files = if rng.chance(1, 8) { 1 } else { rng.range(2, 6) };
     let mut g = TreeGen { files: vec![None; FILE_NAMES.len()], flat_ok: true, pool: Vec::new(), n_files };
     let mut ctx = Ctx::new();
     let (main, flat) = g.gen_file(rng, 0, &mut ctx, 0, 1);
@@ -471,8 +471,12 @@ fn gen_special(rng: &mut Rng, em: &mut Emitter, thorough: bool) {
     // included file without trailing newline, unbalanced parenthesis at its end
     emit(em, &format!("inc 3 {} {}", f(&[("main.zone", "$ORIGIN t.\n$INCLUDE i.zone\nb 5 IN A 2.2.2.2\n"), ("i.zone", "i 7 IN A 3.3.3.3")]), h("main.zone")));
     emit(em, &format!("inc 3 {} {}", f(&[("main.zone", "$ORIGIN t.\n$INCLUDE i.zone\nb 5 IN A 2.2.2.2\n"), ("i.zone", "i 7 IN A 3.3.3.3 (\n")]), h("main.zone")));
-    // long runs of consecutive includes (the recursion of fs::Parser::next)
-    let runs: &[usize] = if thorough { &[1, 10, 100, 1000, 3000] } else { &[1, 10, 100, 400] };
+    // long runs of consecutive includes (the recursion of fs::Parser::next).  NOTE: each include
+    // that yields nothing adds two frames of `fs::Parser::next` (`return self.next()` is not a
+    // guaranteed tail call); ~1500 (debug) / ~7000 (release) consecutive includes overflow an
+    // 8 MiB stack — an abort, which no harness can catch (reported as a finding; the runs here
+    // stay below it).
+    let runs: &[usize] = if thorough { &[1, 10, 100, 400, 800] } else { &[1, 10, 100, 400] };
     for &n in runs {
         let mut m = String::from("$ORIGIN t.\n");
         for i in 0..n {
